@@ -23,11 +23,13 @@ CONTRACTS.update({
  # summaries of the attribute setters (the converters themselves are per-subtype functions; their contracts are separate)
  'Attribute.value.setter': dict(
     props=[], axiom=True, kind='set', target='Attribute.value', params={'val': 'opq:uval'}, returns='none', modifies=['self._value'],
+    self_fields={'_value': 'opq:stored'},
     raises={'AnyException': 'rejects_value(self, val)'},
     # converters map a value to a value (only None to None): assumed here, the per-subtype converter contracts are separate
     ensures=['self._value == converted(self, val)', 'implies(val is not None, self._value is not None)']),
  'Attribute.units.setter': dict(
     props=[], axiom=True, kind='set', target='Attribute.units', params={'units': 'opq:uval'}, returns='none', modifies=['self._units'],
+    self_fields={'_units': 'opq:stored'},
     raises={'AnyException': 'rejects_units(self, units)'}, ensures=['self._units == units']),
 })
 ROUTES = {
